@@ -581,7 +581,7 @@ class RemoteStreamFlowPath(
         return self._inner_path
 
     def _make_child_relpath(self, part):
-        parts = self._tail
+        parts = self._tail + [part]
         return self._from_parsed_parts(self._drv, self._root, parts)
 
     async def _test(self, command: list[str]) -> bool:
